@@ -15,9 +15,11 @@
     - world level (Model/DumpLoadW.v): LoadEntities rejected on locked / used worlds, accepted on
       new or reset ones; the loaded world has the dumped pool, one row of the component-less
       table per alive entity, a fresh index and target flags, and is otherwise untouched.
-    Not proved: that every index entry of an alive entity points at its row (shown on the
-    example, compared on every run by the correspondence, and checked on the implementation by
-    the twin-world oracle, which queries and keeps using the loaded worlds). *)
+      The rebuilt index sends the j-th alive ID to row (old length + j) of table 0.
+    Not proved: the entity column of table 0 (that row j holds that entity needs the capacity
+    lemmas of TableProofs; shown on the example, compared on every run by the correspondence,
+    and checked on the implementation by the twin-world oracle, which queries and keeps using
+    the loaded worlds). *)
 From Ark Require Import Model.Base Model.Pool Model.Codec Model.Mask Model.World Model.Run Model.DumpLoad Model.DumpLoadW Proofs.CodecProofs Proofs.DumpLoadProofs Proofs.DumpLoadWProofs.
 
 Theorem C17_bin_roundtrip :
@@ -130,6 +132,19 @@ Theorem C17_world_load_result : forall s t t',
   w_filters t' = w_filters t /\ w_res t' = w_res t /\ w_cfg t' = w_cfg t.
 Proof. exact w_load_result. Qed.
 
+(** The rebuilt entity index: the j-th ID of the Alive list is indexed at table 0, row
+    (previous length + j) - the row the Add loop gave it -, every other slot of the dumped pool
+    keeps the fresh entry. ([NoDup]: no entity sits in two rows; part of the C01 invariant.) *)
+Theorem C17_world_load_index : forall s t t',
+  has_reserved (w_pool s) -> alive_ok s -> NoDup (alive_ids s) ->
+  w_load_entities (w_dump_entities s) t = Some t' ->
+  exists t0, nth_error (w_tables t) 0 = Some t0 /\
+    (forall j i, nth_error (alive_ids s) j = Some i ->
+                 nth_error (w_index t') i = Some (Some 0, t_len t0 + j)) /\
+    (forall k, k < length (pe (w_pool s)) -> ~ In k (alive_ids s) ->
+               nth_error (w_index t') k = Some (Some 0, 0)).
+Proof. exact w_load_index. Qed.
+
 Theorem C17_world_load_alive : forall s t t' h,
   has_reserved (w_pool s) -> w_load_entities (w_dump_entities s) t = Some t' ->
   alive t' h = alive s h.
@@ -155,7 +170,7 @@ Definition ex_new : W :=
 Definition ex_src : W := final_state false ex_new ex_ops.
 
 Example C17_world_example :
-  alive_ok ex_src /\ has_reserved (w_pool ex_src) /\ alive_ids ex_src = [6; 5; 4; 3] /\
+  alive_ok ex_src /\ NoDup (alive_ids ex_src) /\ has_reserved (w_pool ex_src) /\ alive_ids ex_src = [6; 5; 4; 3] /\
   match w_load_entities (w_dump_entities ex_src) ex_new with
   | Some t' =>
       map (alive t') (w_issued ex_src) = [false; false; true; true; true; true] /\
@@ -167,6 +182,7 @@ Example C17_world_example :
   end.
 Proof.
   split; [unfold alive_ok; vm_compute; repeat constructor; eexists; reflexivity|].
+  split; [vm_compute; repeat (constructor; [cbn; intuition discriminate|]); constructor|].
   split; [unfold has_reserved; vm_compute; repeat constructor|].
   vm_compute; repeat split; reflexivity.
 Qed.
@@ -178,5 +194,5 @@ Example C17_example :
 Proof. vm_compute. repeat split; reflexivity. Qed.
 
 (** One traversal of the dependency graph for all theorems of this file. *)
-Definition C17_all := (C17_bin_roundtrip, C17_bin_shape, C17_bin_reject, C17_bin_bijective, C17_bin_append, C17_json_roundtrip, C17_scripts_reserved, C17_load_fresh_or_reset, C17_load_dump_alive, C17_load_dump_future, C17_load_rejected_iff, C17_world_load_rejected, C17_world_load_succeeds, C17_world_load_result, C17_world_load_alive, C17_world_load_future).
+Definition C17_all := (C17_bin_roundtrip, C17_bin_shape, C17_bin_reject, C17_bin_bijective, C17_bin_append, C17_json_roundtrip, C17_scripts_reserved, C17_load_fresh_or_reset, C17_load_dump_alive, C17_load_dump_future, C17_load_rejected_iff, C17_world_load_rejected, C17_world_load_succeeds, C17_world_load_result, C17_world_load_index, C17_world_load_alive, C17_world_load_future).
 Print Assumptions C17_all.
